@@ -58,6 +58,9 @@ EXCLUDED_FORMS = [
     "Callable[P2, int]", "Callable[Concatenate[int, P2], str]", "list[Callable[P2, T]]",
     "List", "Dict", "Tuple", "Callable", "Type", "type", "tuple", "Sequence",
     '"Annotated[()]"', 'list["Annotated[()]"]',
+    # deliberately unsupported syntax inside string annotations: every route must report it, and the checked-module
+    # routes must report it *at the annotation* (positions inside the parsed string are not positions in the file)
+    '"int if A else str"', '"lambda: int"', 'list["int < str"]', '"[int for _ in ()]"', 'Optional["f\'{int}\'"]',
 ]
 
 # class codes shared with the Coq model
@@ -533,6 +536,7 @@ def impl_routes(exprs_src):
             by_line = {}
             fns = {n.name: n for n in tree.body if isinstance(n, ast.FunctionDef)}
             ann_pos = {fn.lineno: fn.args.args[0].annotation.col_offset for fn in fns.values() if fn.name.startswith("f") and fn.args.args}
+            ann_is_str = {fn.lineno: isinstance(fn.args.args[0].annotation, ast.Constant) for fn in fns.values() if fn.name.startswith("f") and fn.args.args}
             for e in errors:
                 if e["code"].name not in LINT:
                     by_line.setdefault(e["lineno"], []).append(e["code"].name)
@@ -544,7 +548,7 @@ def impl_routes(exprs_src):
                         if e["lineno"] not in ann_pos:
                             LOCATION_ERRORS.append({"route": tag, "lineno": e["lineno"], "col_offset": col, "message": str(e.get("description"))[:120],
                                                     "why": "no annotation on that line"})
-                        elif quote and col != ann_pos[e["lineno"]]:
+                        elif ann_is_str.get(e["lineno"]) and col != ann_pos[e["lineno"]]:
                             LOCATION_ERRORS.append({"route": tag, "lineno": e["lineno"], "col_offset": col, "expected_col": ann_pos[e["lineno"]],
                                                     "source": code.splitlines()[e["lineno"] - 1], "why": "not at the string annotation node"})
             for i in idx:
